@@ -123,6 +123,7 @@ fn cmd_journal_run(args: &[String]) -> i32 {
     let tier = parse_tier(args.get(3));
     let seed: u64 = args[4].parse().unwrap_or(runner::DEFAULT_SEED);
     let run: usize = args[5].parse().unwrap_or(0);
+    runner::set_journal_property(&args[2]);
     runner::set_journal(Some(PathBuf::from(&args[6])));
     let _ = runner::run_one(def.run, seed, &args[2], tier, run);
     0
@@ -149,7 +150,17 @@ fn cmd_check(args: &[String]) -> i32 {
     }
     let vdir = verif_dir();
     let replay_dir = vdir.join("replays");
+    // replay files of an earlier run of this check are stale: remove them
+    if let Ok(rd) = std::fs::read_dir(&replay_dir) {
+        for e in rd.flatten() {
+            let n = e.file_name().to_string_lossy().to_string();
+            if n.starts_with(&format!("{id}-")) && n.ends_with(".json") && !args.iter().any(|a| a == "--journal-all") {
+                let _ = std::fs::remove_file(e.path());
+            }
+        }
+    }
     let journal_all = args.iter().any(|a| a == "--journal-all");
+    runner::set_journal_property(&id);
     if journal_all {
         std::fs::create_dir_all(&replay_dir).ok();
         runner::set_journal(Some(replay_dir.join(format!("{id}-{seed}-inflight.json"))));
